@@ -143,12 +143,13 @@ def benign_files(prop):
     except OSError:
         return []
     out = []
-    base = os.path.join(core.VERIF, 'controls', 'benign')
-    if not os.path.isdir(base):
-        return out
-    for fn in sorted(os.listdir(base)):
-        if not fn.endswith('.diff'):
-            continue
+    cands = []
+    for sub in ('benign', 'benign_agents'):
+        base = os.path.join(core.VERIF, 'controls', sub)
+        if os.path.isdir(base):
+            cands += [os.path.join(base, fn) for fn in sorted(os.listdir(base)) if fn.endswith('.diff')]
+    for cf_ in cands:
+        base, fn = os.path.split(cf_)
         touched = set()
         with open(os.path.join(base, fn)) as f:
             for line in f:
